@@ -242,11 +242,15 @@ type rcase struct {
 	Mask    uint64  `json:"cut_mask"`
 	RestAt  int     `json:"rest_after"`
 	OldMask uint64  `json:"old_cut_mask"`
+	OldFail int     `json:"old_fails_after,omitempty"` // > 0: the old reader fails (not EOF) after that many bytes
 }
 
 func checkReset(c rcase) *mc.Failure {
 	return mc.GuardT("reset", c, func() *mc.Failure {
 		old := fcase{In: c.Old, Mask: c.OldMask, FailAt: -1}
+		if c.OldFail > 0 {
+			old.FailAt = c.OldFail
+		}
 		sc := shell.NewScanner(old.reader())
 		for i := 0; i < c.OldToks && sc.Next(); i++ {
 		}
@@ -257,6 +261,9 @@ func checkReset(c rcase) *mc.Failure {
 		var got []string
 		for k := 0; ; k++ {
 			if k == c.RestAt {
+				if c.OldMask != 0 {
+					sc.Rest() // a result nobody reads consumes nothing: the next Rest still has it all
+				}
 				b, err := io.ReadAll(sc.Rest())
 				consumed := 0
 				if k > 0 {
@@ -574,7 +581,10 @@ func main() {
 				olds := []struct {
 					s string
 					n int
-				}{{"", 0}, {"old1 old2 old3", 1}, {"'open quote", 1}, {"x\\", 1}, {"a b", 5}}
+					fail int
+				}{{"", 0, 0}, {"old1 old2 old3", 1, 0}, {"'open quote", 1, 0}, {"x\\", 1, 0}, {"a b", 5, 0},
+					// the old reader failed with an error other than EOF inside a word, a quote, after a backslash
+					{"x ab", 5, 4}, {"x 'ab", 5, 5}, {"x \"ab", 5, 5}, {"x\\", 5, 2}, {"x \"a\\", 5, 5}}
 				strs := allStrings(alphabet[:7], mc.Pick(r, 4, 5))
 				var evals int64
 				mc.ParallelFor(len(strs), r.Workers, func(i int) {
@@ -586,7 +596,7 @@ func main() {
 						for m := uint64(0); m < masks; m++ {
 							for k := -1; k <= len(toks); k++ {
 								for _, om := range []uint64{0, ^uint64(0)} {
-									c := rcase{Old: mc.BStr(o.s), OldToks: o.n, In: mc.BStr(s), Mask: m, RestAt: k, OldMask: om}
+									c := rcase{Old: mc.BStr(o.s), OldToks: o.n, In: mc.BStr(s), Mask: m, RestAt: k, OldMask: om, OldFail: o.fail}
 									if f := checkReset(c); f != nil {
 										r.Violation(mc.Case{Harness: "reset", Trace: mc.J(c), Msg: f.Msg})
 									}
@@ -598,7 +608,7 @@ func main() {
 					atomic.AddInt64(&evals, n)
 				})
 				r.AddEval(int64(len(strs)), evals, evals, evals)
-				r.Rule("a scanner that has read part of an old input (left in every kind of state, old reader delivering at once or byte by byte) is Reset onto every short string under every fragmentation; tokens, Complete, Err and Rest after every token count must be those of a fresh scanner")
+				r.Rule("a scanner that has read part of an old input (left in every kind of state, old reader delivering at once or byte by byte, or failing with an error other than EOF inside a word, a quote or an escape) is Reset onto every short string under every fragmentation; tokens, Complete, Err and Rest after every token count must be those of a fresh scanner; in half of the cases Rest is called twice and the first result dropped unread")
 				r.Sample(rcase{Old: "old1 old2 old3", OldToks: 1, In: "a 'b c' d", Mask: 0b10101, RestAt: 1})
 			},
 			Replay: func(c mc.Case) *mc.Failure {
